@@ -342,3 +342,62 @@ Proof.
   split; [exact ex_pt_of_canonical|]. split; [|vm_compute; reflexivity].
   constructor; [right; reflexivity|]. constructor; [left; reflexivity|constructor].
 Qed.
+
+(* The check-in key on the wire has a fixed width.  crypto.FromECDSAPub writes 0x04 and then
+   each coordinate into exactly 32 bytes, so the encoding has 65 bytes (and its base64url text
+   87 characters) whatever the coordinates are - also when X or Y has leading zero bytes - and
+   both coordinates are recovered from their fixed positions.  (crypto.UnmarshalPubkey accepts
+   only 65-byte strings: an encoder that drops leading zero bytes of a coordinate produces
+   events the keyper rejects.) *)
+Theorem C14_checkin_key_fixed_width :
+  forall x y : N,
+  length (marshal_pubkey x y) = 65%nat /\
+  bytes_ok (marshal_pubkey x y) /\
+  length (b64_encode (marshal_pubkey x y)) = 87%nat /\
+  (x < 256 ^ 32 -> y < 256 ^ 32 ->
+   of_be_bytes (firstn 32 (skipn 1 (marshal_pubkey x y))) = x /\
+   of_be_bytes (skipn 33 (marshal_pubkey x y)) = y).
+Proof.
+  intros x y. split; [apply marshal_pubkey_length|]. split; [apply marshal_pubkey_ok|].
+  split; [apply marshal_pubkey_text_length|]. apply marshal_pubkey_coords.
+Qed.
+Print Assumptions C14_checkin_key_fixed_width.
+
+Example C14_checkin_key_fixed_width_nonvacuous :
+  (* a coordinate with two leading zero bytes and one with none *)
+  let x := 256 ^ 30 - 1 in let y := 256 ^ 32 - 1 in
+  x < 256 ^ 32 /\ y < 256 ^ 32 /\
+  firstn 4 (marshal_pubkey x y) = [4; 0; 0; 255] /\
+  length (be_bytes x) = 30%nat /\ length (marshal_pubkey x y) = 65%nat /\
+  marshal_pubkey 0 0 = 4 :: repeat 0 64.
+Proof. cbv zeta. repeat split; vm_compute; reflexivity. Qed.
+
+(* The shutter.check-in event the application writes, when the key encoder is FromECDSAPub of
+   the key's coordinates: the two attributes, and the key attribute is the unpadded base64url
+   text (87 characters) of exactly 65 bytes. *)
+Theorem C14_app_checkin_wire :
+  forall (point key : Type) (cs : bytes -> list bool) (enc_pt : point -> bytes)
+         (pt_of : bytes -> point) (key_of : bytes -> key) (key_x key_y : key -> N)
+         (s k : bytes),
+  app_abci_event point key cs enc_pt (marshal_key key key_x key_y) pt_of key_of (App.EvCheckIn s k)
+  = Ok (bs "shutter.check-in",
+        [mk_attr (bs "Sender") (address_hex cs s) true;
+         mk_attr (bs "EncryptionPublicKey")
+                 (b64_encode (marshal_key key key_x key_y (key_of k))) false]) /\
+  length (marshal_key key key_x key_y (key_of k)) = 65%nat /\
+  length (b64_encode (marshal_key key key_x key_y (key_of k))) = 87%nat /\
+  b64_decode (b64_encode (marshal_key key key_x key_y (key_of k)))
+  = Some (marshal_key key key_x key_y (key_of k)).
+Proof. exact app_checkin_wire. Qed.
+Print Assumptions C14_app_checkin_wire.
+
+Example C14_app_checkin_wire_nonvacuous :
+  match app_abci_event bool (N * N) ex_cs ex_enc_pt (marshal_key (N * N) fst snd) ex_pt_of
+                       (fun _ => (5, 256 ^ 31)) (App.EvCheckIn ex_addr2 ex_enckey) with
+  | Ok (t, [a1; a2]) =>
+      t = bs "shutter.check-in" /\ a_key a2 = bs "EncryptionPublicKey" /\
+      length (a_value a2) = 87%nat /\
+      option_map (firstn 34) (b64_decode (a_value a2)) = Some (4 :: repeat 0 31 ++ [5; 1])
+  | _ => False
+  end.
+Proof. vm_compute. repeat split; reflexivity. Qed.
